@@ -52,4 +52,23 @@ CHECKS["C08"] = {
             "securities left idle over date changes.",
     "note": COMMON_NOTE + " Idempotence of the strategy-level update is decided by the schedule suite, not yet by a theorem; comparisons use the 1e-9 relation because "
             "coupons swept on the first update of a date re-associate a float sum."}
+CHECKS["C02"] = {
+    "text": "Theorems: a trade at the current (or a custom) price leaves 'parent cash + position marked at the current price' unchanged except for exactly the spread "
+            "cost and the fee; every update makes each strategy's value its cash plus its children's values (so capital moved between a parent and a sub-strategy "
+            "cancels). Oracle on whole implementation backtests (market-value and fixed-income, nested, with user-written adjustments): day-by-day attribution "
+            "V_t - V_{t-1} = sum pos_{t-1} (p_t - p_{t-1}) m + flows + non-flow adjustments + carry_{t-1} - fees_t - bid/offer paid_t from the recorded series; correspondence.",
+    "note": COMMON_NOTE + " The day-level attribution identity itself is decided by the oracle + correspondence, not yet by one theorem."}
+CHECKS["C16"] = {
+    "text": "Theorems: after root.update the bankrupt flag is set iff it was set or the freshly summed value of a market-value root is negative (never for fixed income); "
+            "the update of a non-root strategy never touches the flag; on a date whose update leaves the root flagged Backtest.run neither runs the algos nor updates again. "
+            "Suite: leveraged/short weightings with price shocks through, onto and short of zero value (flat and nested); oracle: flag iff a recorded value is negative, "
+            "all positions flat from that date, value and cash constant afterwards, no stack run afterwards, sub-strategies never flagged. Known findings K13, K5.",
+    "note": COMMON_NOTE + " 'Every position is closed' is false of the code for nested trees with costs / whole units (K13) and zero-value children (K5); for flat trees it is decided by oracle + correspondence."}
+CHECKS["C17"] = {
+    "text": "Theorems: notional after an update is market value (Security) / position (FixedIncomeSecurity, CouponPayingSecurity) / zero (hedge classes); strategy notional "
+            "= sum |child notional| and notional weights (balance-sheet theorem); carry = position x coupon - cost x |position| on the long/short side, parked for the "
+            "parent; NaN coupon on an open position errors; the index moves additively by 100 x pnl / previous (or first) notional, error on zero notional with pnl. "
+            "Suite: FixedIncomeStrategy backtests over all five classes with coupons, asymmetric costs, SetNotional schedules, close/roll tables; oracles on notional rows, "
+            "index rows and the cash ledger (carry paid on the next date).",
+    "note": COMMON_NOTE + " Rebalance-to-notional targets are decided by correspondence (trace of temp weights + positions), not by a theorem; FixedIncomeSecurity.fixed_income is False in bt (sized by market value): behaviour is modelled as is."}
 NOT_APPLICABLE = {}
